@@ -1,12 +1,926 @@
-//! C10 — stub (not built yet).
+//! C10 — every tabulated quadrature rule has its full degree of exactness; the tanh-sinh table
+//! matches the double-exponential formula.
+//!
+//! The tables are private constants of the library. The harness compiles the *working tree's*
+//! `tables.rs` into itself (`#[path]`, rebuilt by cargo whenever the file changes) and audits every
+//! row and every entry (exhaustive), expanding the rows exactly as the property says the
+//! integrators consume them (`x == 0` once, otherwise +-x). What the compiled library really
+//! consumes is tied to the audited file through the public integrators:
+//!   * walk: a never-converging integrand (tol = 0) makes each integrator walk its whole table; the
+//!     call log must be exactly the audited nodes, row by row, in table order, centre node once;
+//!   * consumption: a scripted integrand makes each integrator return rule k (k >= 2) / tanh-sinh
+//!     level L (L >= 2); the returned value must be sum w_i v_i with the audited weights.
+//!
+//! Oracles of the audit (mathematics, not the code under test): three-term recurrences of the
+//! orthonormal Legendre / Hermite / Laguerre / Chebyshev polynomials, Christoffel numbers,
+//! closed-form moments, closed-form Chebyshev nodes and weights, the tanh-sinh formulas.
+
+use crate::json::J;
+use crate::probe::{self, Guarded};
 use crate::report::*;
+use crate::rng::{CaseHash, Rng};
+use bacon_sci::integrate::{integrate, integrate_chebyshev, integrate_chebyshev_second, integrate_gaussian, integrate_hermite, integrate_laguerre};
+use num_complex::Complex;
+use std::cell::RefCell;
+use std::f64::consts::{FRAC_PI_2, PI};
+
+#[path = "/repo/src/integrate/tables.rs"]
+#[allow(dead_code, clippy::all)]
+mod tables;
+
+const EPS: f64 = f64::EPSILON;
+
+// =========================================================================== frozen constants
+// Every audit quantity is deterministic (no random input): the "observed" value IS the maximum over
+// the repaired tree's tables (re-measured and written to the evidence by every run). The Hermite and
+// Laguerre rows were evidently generated with ~1e-12 relative node accuracy and ~1e-10 relative weight
+// accuracy (the Christoffel number at the Newton-corrected node still differs by 1.4e-10), which is
+// what limits the resolution there.
+//
+//                                         Legendre  Hermite  Laguerre  Cheb-1   Cheb-2
+// node residual |p_n(x)|/(n |p_<n|)
+//                               observed:  5.7e-15  2.6e-13   1.8e-13  4.5e-16  2.8e-16
+const TOL_NODE: [f64; 5] = [1e-13, 5e-12, 5e-12, 1e-14, 1e-14];
+// node displacement |p_n/p_n'| / max(|x|, 1e-3)
+//                               observed:  6.5e-15  1.1e-12   6.9e-13  1.9e-14  2.0e-14
+const TOL_DISPLACEMENT: [f64; 5] = [2e-13, 2e-11, 2e-11, 4e-13, 4e-13];
+// Christoffel weight, relative  observed:  1.1e-13  9.6e-11   7.7e-11  1.9e-13  1.5e-13
+const TOL_WEIGHT: [f64; 5] = [2e-12, 1e-9, 1e-9, 4e-12, 4e-12];
+// discrete orthonormality       observed:  8.5e-14  2.8e-11   3.3e-11  1.8e-14  1.5e-14
+const TOL_ORTHO: [f64; 5] = [2e-12, 5e-10, 5e-10, 5e-13, 5e-13];
+// monomial moments / sum w|x|^k observed:  8.7e-14  1.3e-11   1.1e-11  3.2e-15  2.4e-15
+const TOL_MOMENT: [f64; 5] = [2e-12, 2e-10, 2e-10, 1e-13, 1e-13];
+/// highest monomial degree compared with the closed-form moments
+const MOMENT_KMAX: usize = 40;
+/// Chebyshev closed forms: |x - cos(theta_i)| absolute (observed 3.6e-16) and weight relative
+/// (first kind: pi/n, observed 0; second kind: pi/(n+1) sin^2, observed 1.1e-14 at the tiny end weights)
+const TOL_CHEB_NODE: f64 = 4e-15;
+const TOL_CHEB_WEIGHT: [f64; 2] = [8.0 * EPS, 2e-13];
+/// tanh-sinh: |x - tanh(pi/2 sinh t)| absolute (observed 1.1e-16 = half an ulp of the abscissae) and
+/// weight relative (observed 3.9e-15: cosh^2(pi/2 sinh t) amplifies the rounding of its argument by up to 31)
+const TOL_DE_NODE: f64 = 4.0 * EPS;
+const TOL_DE_WEIGHT: f64 = 1e-13;
+/// consumption: |returned - sum w_i v_i| <= K_CONSUME * eps * sum |w_i v_i| (summation of n <= 200
+/// terms in either order; observed 0.98)
+const K_CONSUME: f64 = 64.0;
 
 pub fn meta() -> CheckMeta {
-    CheckMeta { id: "C10", level: "exploration", rule: "stub".into(), assumptions: vec![], exhaustive: false, stuck_is_violation: false }
+    CheckMeta {
+        id: "C10",
+        level: "exploration",
+        rule: "exhaustive: every row of WEIGHTS_LEGENDRE / _HERMITE / _LAGUERRE / _CHEBYSHEV / _CHEBYSHEV_SECOND (compiled from the working tree's tables.rs) is a case: expanded as the integrators consume it (x == 0 once, else +-x) it must have exactly n distinct points inside the domain with positive weights; every stored entry must be a zero of the degree-n orthonormal polynomial with the Christoffel number as weight (Chebyshev: also the closed forms); discrete orthonormality for all j+k <= 2n-1 and monomial moments up to degree min(2n-1,40) against closed forms. Every tanh-sinh level is a case: every (weight, abscissa) against x = tanh(pi/2 sinh t), w = 2^-l pi/2 cosh t / cosh^2(pi/2 sinh t), t = j+1 (level 0), (2j+1)/2^l (above), and the level must cover all its t <= 3. End-to-end: 12 walks (6 integrators x real/complex, tol = 0, call log == audited nodes in order) and one scripted consumption run per rule k >= 2 / level L >= 2 (returned value == sum w_i v_i with the audited weights). distinct = distinct (table, row) / (integrator, field) / (integrator, rule)".into(),
+        assumptions: vec![
+            "resolution of the per-entry audit (limited by the accuracy the shipped rows were generated with): relative node perturbations below 2e-13 (Legendre) / 2e-11 (Hermite, Laguerre) and relative weight perturbations below 2e-12 (Legendre) / 1e-9 (Hermite, Laguerre) are not flagged; Chebyshev entries are compared with their closed forms to 4e-15 / 2e-13; tanh-sinh to 4 eps / 1e-13".into(),
+            "the 1-point rules' weights are not observable as a return value of an integrator (a rule is only returned when it agrees with its predecessor); they are audited in the table and their nodes are seen in the walk".into(),
+        ],
+        exhaustive: true,
+        stuck_is_violation: false,
+    }
 }
+
+// =========================================================================== families
+
+#[derive(Clone, Copy, PartialEq, Debug)]
+enum Fam {
+    Legendre,
+    Hermite,
+    Laguerre,
+    Cheb1,
+    Cheb2,
+}
+
+const FAMS: [Fam; 5] = [Fam::Legendre, Fam::Hermite, Fam::Laguerre, Fam::Cheb1, Fam::Cheb2];
+
+impl Fam {
+    fn idx(self) -> usize {
+        self as usize
+    }
+    fn name(self) -> &'static str {
+        match self {
+            Fam::Legendre => "legendre",
+            Fam::Hermite => "hermite",
+            Fam::Laguerre => "laguerre",
+            Fam::Cheb1 => "chebyshev",
+            Fam::Cheb2 => "chebyshev_second",
+        }
+    }
+    fn table_name(self) -> &'static str {
+        match self {
+            Fam::Legendre => "WEIGHTS_LEGENDRE",
+            Fam::Hermite => "WEIGHTS_HERMITE",
+            Fam::Laguerre => "WEIGHTS_LAGUERRE",
+            Fam::Cheb1 => "WEIGHTS_CHEBYSHEV",
+            Fam::Cheb2 => "WEIGHTS_CHEBYSHEV_SECOND",
+        }
+    }
+    fn table(self) -> &'static [&'static [(f64, f64)]] {
+        match self {
+            Fam::Legendre => tables::WEIGHTS_LEGENDRE,
+            Fam::Hermite => tables::WEIGHTS_HERMITE,
+            Fam::Laguerre => tables::WEIGHTS_LAGUERRE,
+            Fam::Cheb1 => tables::WEIGHTS_CHEBYSHEV,
+            Fam::Cheb2 => tables::WEIGHTS_CHEBYSHEV_SECOND,
+        }
+    }
+    /// rows the pinned tree ships; fewer audited rows => INCONCLUSIVE
+    fn rows_expected(self) -> usize {
+        match self {
+            Fam::Legendre => 12,
+            Fam::Hermite => 27,
+            Fam::Laguerre => 12,
+            Fam::Cheb1 => 100,
+            Fam::Cheb2 => 100,
+        }
+    }
+    /// rules stored as the non-negative half
+    fn symmetric(self) -> bool {
+        self != Fam::Laguerre
+    }
+    /// integral of the weight function
+    fn mu0(self) -> f64 {
+        match self {
+            Fam::Legendre => 2.0,
+            Fam::Hermite => PI.sqrt(),
+            Fam::Laguerre => 1.0,
+            Fam::Cheb1 => PI,
+            Fam::Cheb2 => FRAC_PI_2,
+        }
+    }
+    /// monic recurrence pi_{k+1} = (x - a_k) pi_k - b_k pi_{k-1}
+    fn a(self, k: usize) -> f64 {
+        match self {
+            Fam::Laguerre => 2.0 * k as f64 + 1.0,
+            _ => 0.0,
+        }
+    }
+    fn b(self, k: usize) -> f64 {
+        let kf = k as f64;
+        match self {
+            Fam::Legendre => kf * kf / (4.0 * kf * kf - 1.0),
+            Fam::Hermite => kf / 2.0,
+            Fam::Laguerre => kf * kf,
+            Fam::Cheb1 => {
+                if k == 1 {
+                    0.5
+                } else {
+                    0.25
+                }
+            }
+            Fam::Cheb2 => 0.25,
+        }
+    }
+    /// closed-form moment: integral of x^k against the weight function
+    fn moment(self, k: usize) -> f64 {
+        if self == Fam::Laguerre {
+            let mut f = 1.0;
+            for j in 1..=k {
+                f *= j as f64;
+            }
+            return f;
+        }
+        if k % 2 == 1 {
+            return 0.0;
+        }
+        let m = k / 2;
+        match self {
+            Fam::Legendre => 2.0 / (k as f64 + 1.0),
+            Fam::Hermite => {
+                // Gamma(m + 1/2) = sqrt(pi) prod (2j-1)/2
+                let mut g = PI.sqrt();
+                for j in 1..=m {
+                    g *= (2 * j - 1) as f64 / 2.0;
+                }
+                g
+            }
+            Fam::Cheb1 => {
+                let mut g = PI;
+                for j in 1..=m {
+                    g *= (2 * j - 1) as f64 / (2 * j) as f64;
+                }
+                g
+            }
+            Fam::Cheb2 => {
+                let mut g = FRAC_PI_2;
+                for j in 1..=m {
+                    g *= (2 * j - 1) as f64 / (2 * j + 2) as f64;
+                }
+                g
+            }
+            Fam::Laguerre => unreachable!(),
+        }
+    }
+    fn in_domain(self, x: f64) -> bool {
+        match self {
+            Fam::Legendre | Fam::Cheb1 | Fam::Cheb2 => x > -1.0 && x < 1.0,
+            Fam::Hermite => x.is_finite(),
+            Fam::Laguerre => x > 0.0 && x.is_finite(),
+        }
+    }
+    fn domain_text(self) -> &'static str {
+        match self {
+            Fam::Legendre | Fam::Cheb1 | Fam::Cheb2 => "(-1, 1)",
+            Fam::Hermite => "(-inf, inf)",
+            Fam::Laguerre => "(0, inf)",
+        }
+    }
+    /// orthonormal p_0 .. p_n at x
+    fn ortho(self, n: usize, x: f64) -> Vec<f64> {
+        let mut p = Vec::with_capacity(n + 1);
+        p.push(1.0 / self.mu0().sqrt());
+        let mut prev = 0.0;
+        for k in 0..n {
+            let pk = p[k];
+            let sub = if k == 0 { 0.0 } else { self.b(k).sqrt() * prev };
+            p.push(((x - self.a(k)) * pk - sub) / self.b(k + 1).sqrt());
+            prev = pk;
+        }
+        p
+    }
+}
+
+/// the rule as the integrators consume a stored row: centre node once, other nodes as +x then -x
+fn expand(fam: Fam, row: &[(f64, f64)]) -> Vec<(f64, f64)> {
+    let mut v = Vec::with_capacity(2 * row.len());
+    for &(x, w) in row {
+        if !fam.symmetric() || x == 0.0 {
+            v.push((x, w));
+        } else {
+            v.push((x, w));
+            v.push((-x, w));
+        }
+    }
+    v
+}
+
+fn row_json(row: &[(f64, f64)]) -> J {
+    J::Arr(row.iter().map(|(x, w)| J::fs(&[*x, *w])).collect())
+}
+
+// =========================================================================== Gaussian audit
+
+fn audit_row(rep: &mut Report, fam: Fam, r: usize) {
+    let table = fam.table();
+    let row = table[r];
+    let n = r + 1;
+    let name = fam.name();
+    rep.eval();
+    rep.nontrivial(CaseHash::new("c10-row").s(name).u(n as u64).0);
+    rep.count(&format!("{}/rows", name), 1);
+    rep.count(&format!("{}/stored_entries", name), row.len() as i64);
+    let pts = expand(fam, row);
+    rep.count(&format!("{}/expanded_points", name), pts.len() as i64);
+    let base = || J::obj().set("table", fam.table_name()).set("row_index", r).set("n", n).set("stored_row_node_weight", row_json(row));
+
+    // (a) structure
+    let mut structure_ok = true;
+    if pts.len() != n {
+        structure_ok = false;
+        let centre: Vec<f64> = row.iter().filter(|(x, _)| x.abs() < 1e-9).map(|(x, _)| *x).collect();
+        rep.violation(
+            &format!("{}/point-count", name),
+            base().set("expanded_points", pts.len()).set("stored_nodes_within_1e-9_of_zero", J::fs(&centre)),
+            format!("{} row {} must be the {}-point rule but expands (x == 0 once, else +-x) to {} points; stored nodes near zero: {:?}", fam.table_name(), r, n, pts.len(), centre),
+        );
+    }
+    for (i, (x, w)) in row.iter().enumerate() {
+        if !fam.in_domain(*x) || !x.is_finite() {
+            structure_ok = false;
+            rep.violation(&format!("{}/node-outside-domain", name), base().set("entry", i).set("node", *x), format!("{} row {} entry {}: node {:e} is not inside {}", fam.table_name(), r, i, x, fam.domain_text()));
+        }
+        if !(*w > 0.0) || !w.is_finite() {
+            structure_ok = false;
+            rep.violation(&format!("{}/weight-not-positive", name), base().set("entry", i).set("weight", *w), format!("{} row {} entry {}: weight {:e} is not positive", fam.table_name(), r, i, w));
+        }
+        if *x == 0.0 && fam.symmetric() {
+            rep.count(&format!("{}/centre_nodes", name), 1);
+        }
+    }
+    let mut sorted: Vec<f64> = pts.iter().map(|p| p.0).collect();
+    sorted.sort_by(|a, b| a.partial_cmp(b).unwrap_or(std::cmp::Ordering::Equal));
+    if let Some(wd) = sorted.windows(2).find(|wd| wd[0] == wd[1]) {
+        structure_ok = false;
+        rep.violation(&format!("{}/duplicate-node", name), base().set("node", wd[0]), format!("{} row {}: node {:e} occurs twice in the expanded rule", fam.table_name(), r, wd[0]));
+    }
+
+    // (b) per stored entry: zero of p_n, Christoffel number, Chebyshev closed forms
+    let mut worst_node = 0.0f64;
+    let mut worst_w = 0.0f64;
+    for (i, (x, w)) in row.iter().enumerate() {
+        if !x.is_finite() || !w.is_finite() {
+            continue;
+        }
+        rep.count(&format!("{}/entries_audited", name), 1);
+        let p = fam.ortho(n, *x);
+        let k: f64 = p[..n].iter().map(|v| v * v).sum();
+        let resid = p[n].abs() / (n as f64 * k.sqrt());
+        let w_ref = 1.0 / k;
+        let wrel = (w - w_ref).abs() / w_ref;
+        worst_node = worst_node.max(resid);
+        worst_w = worst_w.max(wrel);
+        rep.max(&format!("{}/node_residual", name), resid);
+        rep.max(&format!("{}/weight_rel_error", name), wrel);
+        // first-order distance to the nearest zero: p_n(x)/p_n'(x), with p_n' from the confluent
+        // Christoffel-Darboux formula sum_{k<n} p_k^2 = sqrt(b_n) p_n' p_{n-1} (valid at a zero)
+        let dp = k / (fam.b(n).sqrt() * p[n - 1]);
+        // relative to the node (floored at 1e-3: the smallest non-centre node of any shipped rule is 0.0157;
+        // a centre node stored as 1e-15 is a point-count matter, not a displacement)
+        let disp_rel = (p[n] / dp).abs() / x.abs().max(1e-3);
+        rep.max(&format!("{}/node_displacement_rel", name), disp_rel);
+        let ecase = || base().set("entry", i).set("stored_node", *x).set("stored_weight", *w).set("p_n_at_node", p[n]).set("norm_p_below_n", k.sqrt()).set("christoffel_number", w_ref);
+        if !(resid <= TOL_NODE[fam.idx()]) || !(disp_rel <= TOL_DISPLACEMENT[fam.idx()]) {
+            rep.violation(
+                &format!("{}/node-not-a-zero", name),
+                ecase().set("estimated_displacement", p[n] / dp),
+                format!("{} row {} entry {}: node {:.17e} is not a zero of the degree-{} orthogonal polynomial: |p_n|/(n |p_<n|) = {:.2e} (allowed {:.0e}); estimated distance to the zero {:.2e} = {:.2e} relative (allowed {:.0e})", fam.table_name(), r, i, x, n, resid, TOL_NODE[fam.idx()], p[n] / dp, disp_rel, TOL_DISPLACEMENT[fam.idx()]),
+            );
+        }
+        if !(wrel <= TOL_WEIGHT[fam.idx()]) {
+            rep.violation(
+                &format!("{}/weight-not-christoffel", name),
+                ecase(),
+                format!("{} row {} entry {}: weight {:.17e} at node {:.17e} differs from the Christoffel number {:.17e} by {:.2e} relative (allowed {:.0e})", fam.table_name(), r, i, w, x, w_ref, wrel, TOL_WEIGHT[fam.idx()]),
+            );
+        }
+        if fam == Fam::Cheb1 || fam == Fam::Cheb2 {
+            // closed forms: T_n zeros cos((2i-1)pi/2n), weight pi/n; U_n zeros cos(i pi/(n+1)), weight pi/(n+1) sin^2
+            let theta = x.clamp(-1.0, 1.0).acos();
+            let (x_ref, w_cf, which) = if fam == Fam::Cheb1 {
+                let ii = ((2.0 * n as f64 * theta / PI + 1.0) / 2.0).round().clamp(1.0, n as f64);
+                // cos((2i-1)pi/2n) = sin((n+1-2i) pi/2n), accurate near the centre
+                let xr = ((n as f64 + 1.0 - 2.0 * ii) * PI / (2.0 * n as f64)).sin();
+                (xr, PI / n as f64, ii)
+            } else {
+                let ii = ((n as f64 + 1.0) * theta / PI).round().clamp(1.0, n as f64);
+                let ang = (n as f64 + 1.0 - 2.0 * ii) * PI / (2.0 * (n as f64 + 1.0));
+                let xr = ang.sin();
+                (xr, PI / (n as f64 + 1.0) * ang.cos() * ang.cos(), ii)
+            };
+            let dx = (x - x_ref).abs();
+            let dw = (w - w_cf).abs() / w_cf;
+            rep.max(&format!("{}/closed_form_node_abs_error", name), dx);
+            rep.max(&format!("{}/closed_form_weight_rel_error", name), dw);
+            if !(dx <= TOL_CHEB_NODE) {
+                rep.violation(&format!("{}/node-closed-form", name), ecase().set("closed_form_index", which).set("closed_form_node", x_ref), format!("{} row {} entry {}: node {:.17e} differs from the closed form {:.17e} (index {}) by {:.2e}", fam.table_name(), r, i, x, x_ref, which, dx));
+            }
+            if !(dw <= TOL_CHEB_WEIGHT[if fam == Fam::Cheb1 { 0 } else { 1 }]) {
+                rep.violation(&format!("{}/weight-closed-form", name), ecase().set("closed_form_index", which).set("closed_form_weight", w_cf), format!("{} row {} entry {}: weight {:.17e} differs from the closed form {:.17e} by {:.2e} relative", fam.table_name(), r, i, w, w_cf, dw));
+            }
+        }
+    }
+
+    // (c) the rule as a whole: discrete orthonormality and closed-form moments
+    let mut worst_ortho = 0.0f64;
+    let mut worst_mom = 0.0f64;
+    if structure_ok {
+        let ps: Vec<Vec<f64>> = pts.iter().map(|(x, _)| fam.ortho(n, *x)).collect();
+        let mut worst_jk = (0usize, 0usize, 0.0f64);
+        for j in 0..n {
+            for k in j..=n {
+                if j + k > 2 * n - 1 {
+                    continue;
+                }
+                let mut s = 0.0;
+                for (q, (_, w)) in pts.iter().enumerate() {
+                    s += w * ps[q][j] * ps[q][k];
+                }
+                let e = (s - if j == k { 1.0 } else { 0.0 }).abs();
+                if e > worst_ortho || e.is_nan() {
+                    worst_ortho = if e.is_nan() { f64::INFINITY } else { e };
+                    worst_jk = (j, k, s);
+                }
+            }
+        }
+        rep.count(&format!("{}/orthonormality_pairs", name), ((n * (n + 1)) / 2 + n - 1) as i64);
+        rep.max(&format!("{}/orthonormality_residual", name), worst_ortho);
+        if !(worst_ortho <= TOL_ORTHO[fam.idx()]) {
+            rep.violation(
+                &format!("{}/orthonormality", name),
+                base().set("j", worst_jk.0).set("k", worst_jk.1).set("discrete_inner_product", worst_jk.2),
+                format!("{} row {} (n={}): sum w_i p_{}(x_i) p_{}(x_i) = {:.17e}, expected {} (degree {} <= 2n-1 = {}); residual {:.2e} (allowed {:.0e})", fam.table_name(), r, n, worst_jk.0, worst_jk.1, worst_jk.2, if worst_jk.0 == worst_jk.1 { 1 } else { 0 }, worst_jk.0 + worst_jk.1, 2 * n - 1, worst_ortho, TOL_ORTHO[fam.idx()]),
+            );
+        }
+        let kmax = (2 * n - 1).min(MOMENT_KMAX);
+        for k in 0..=kmax {
+            let mut s = 0.0;
+            let mut sa = 0.0;
+            for (x, w) in &pts {
+                let t = w * x.powi(k as i32);
+                s += t;
+                sa += t.abs();
+            }
+            let mu = fam.moment(k);
+            let e = if s == mu { 0.0 } else { (s - mu).abs() / sa };
+            rep.count(&format!("{}/moments_compared", name), 1);
+            if e > worst_mom {
+                worst_mom = e;
+            }
+            if !(e <= TOL_MOMENT[fam.idx()]) {
+                rep.violation(
+                    &format!("{}/moment", name),
+                    base().set("degree", k).set("rule_value", s).set("exact_moment", mu).set("sum_abs_terms", sa),
+                    format!("{} row {} (n={}): rule applied to x^{} gives {:.17e}, the exact moment is {:.17e} (degree <= 2n-1 = {}); error {:.2e} relative to sum w|x|^k (allowed {:.0e})", fam.table_name(), r, n, k, s, mu, 2 * n - 1, e, TOL_MOMENT[fam.idx()]),
+                );
+            }
+        }
+        rep.max(&format!("{}/moment_rel_error", name), worst_mom);
+        rep.count(&format!("{}/rows_fully_audited", name), 1);
+    }
+    if rep.wants_sample() && (n == 5 || n == 12) {
+        rep.sample(base().set("expanded_points", pts.len()).set("worst_node_residual", worst_node).set("worst_weight_rel_error", worst_w).set("orthonormality_residual", worst_ortho).set("worst_moment_rel_error", worst_mom));
+    }
+}
+
+// =========================================================================== tanh-sinh audit
+
+/// (t, x, w) of the double-exponential rule at level l, index j
+fn de_formula(l: usize, j: usize) -> (f64, f64, f64) {
+    let hstep = 1.0 / (1u64 << l) as f64;
+    let t = if l == 0 { (j + 1) as f64 } else { (2 * j + 1) as f64 * hstep };
+    let u = FRAC_PI_2 * t.sinh();
+    let x = u.tanh();
+    let c = u.cosh();
+    let w = hstep * FRAC_PI_2 * t.cosh() / (c * c);
+    (t, x, w)
+}
+
+fn de_level_len(l: usize) -> usize {
+    if l == 0 {
+        3
+    } else {
+        3 << (l - 1)
+    }
+}
+
+fn audit_de_level(rep: &mut Report, l: usize) {
+    let row = tables::WEIGHTS_DE[l];
+    rep.eval();
+    rep.nontrivial(CaseHash::new("c10-de").u(l as u64).0);
+    rep.count("tanh_sinh/levels", 1);
+    rep.count("tanh_sinh/stored_entries", row.len() as i64);
+    let base = || J::obj().set("table", "WEIGHTS_DE").set("level", l).set("stored_level_weight_abscissa", row_json(row));
+    if row.len() != de_level_len(l) {
+        rep.violation(
+            "tanh_sinh/level-length",
+            base().set("entries", row.len()).set("expected", de_level_len(l)),
+            format!("WEIGHTS_DE level {} has {} entries; the trapezoid grid of step 2^-{} on 0 < t <= 3 has {} new points", l, row.len(), l, de_level_len(l)),
+        );
+    }
+    let mut worst = (0.0f64, 0.0f64);
+    for (j, (w, x)) in row.iter().enumerate() {
+        let (t, x_ref, w_ref) = de_formula(l, j);
+        rep.count("tanh_sinh/entries_audited", 1);
+        let dx = (x - x_ref).abs();
+        let dw = (w - w_ref).abs() / w_ref;
+        rep.max("tanh_sinh/node_abs_error", dx);
+        rep.max("tanh_sinh/weight_rel_error", dw);
+        worst = (worst.0.max(dx), worst.1.max(dw));
+        let ecase = || base().set("index", j).set("t", t).set("stored_abscissa", *x).set("stored_weight", *w).set("formula_abscissa", x_ref).set("formula_weight", w_ref);
+        if !(*x > 0.0 && *x < 1.0) {
+            rep.violation("tanh_sinh/abscissa-outside-domain", ecase(), format!("WEIGHTS_DE level {} index {}: abscissa {:.17e} is not inside (0, 1)", l, j, x));
+        }
+        if !(*w > 0.0) {
+            rep.violation("tanh_sinh/weight-not-positive", ecase(), format!("WEIGHTS_DE level {} index {}: weight {:e} is not positive", l, j, w));
+        }
+        if !(dx <= TOL_DE_NODE) {
+            rep.violation("tanh_sinh/abscissa", ecase(), format!("WEIGHTS_DE level {} index {} (t = {}): abscissa {:.17e} differs from tanh(pi/2 sinh t) = {:.17e} by {:.2e}", l, j, t, x, x_ref, dx));
+        }
+        if !(dw <= TOL_DE_WEIGHT) {
+            rep.violation("tanh_sinh/weight", ecase(), format!("WEIGHTS_DE level {} index {} (t = {}): weight {:.17e} differs from 2^-{} pi/2 cosh t / cosh^2(pi/2 sinh t) = {:.17e} by {:.2e} relative (allowed {:.0e})", l, j, t, w, l, w_ref, dw, TOL_DE_WEIGHT));
+        }
+    }
+    if rep.wants_sample() && l <= 1 {
+        rep.sample(base().set("worst_abscissa_abs_error", worst.0).set("worst_weight_rel_error", worst.1));
+    }
+}
+
+// =========================================================================== driving the integrators
+
+#[derive(Clone, Copy, PartialEq, Debug)]
+enum Integ {
+    Gauss(Fam),
+    TanhSinh,
+}
+
+const INTEGS: [Integ; 6] = [Integ::Gauss(Fam::Legendre), Integ::Gauss(Fam::Hermite), Integ::Gauss(Fam::Laguerre), Integ::Gauss(Fam::Cheb1), Integ::Gauss(Fam::Cheb2), Integ::TanhSinh];
+
+impl Integ {
+    fn name(self) -> &'static str {
+        match self {
+            Integ::Gauss(Fam::Legendre) => "integrate_gaussian",
+            Integ::Gauss(Fam::Hermite) => "integrate_hermite",
+            Integ::Gauss(Fam::Laguerre) => "integrate_laguerre",
+            Integ::Gauss(Fam::Cheb1) => "integrate_chebyshev",
+            Integ::Gauss(Fam::Cheb2) => "integrate_chebyshev_second",
+            Integ::TanhSinh => "integrate",
+        }
+    }
+    /// the tolerance the rule comparison inside the routine works with, for `tol` given by the caller
+    /// (integrate_gaussian documents/implements a quarter of the tolerance per unit half-length)
+    fn inner_tol(self, tol: f64) -> f64 {
+        match self {
+            Integ::Gauss(Fam::Legendre) => 0.25 * tol,
+            _ => tol,
+        }
+    }
+    fn call_real(self, f: &mut dyn FnMut(f64) -> f64, tol: f64) -> Result<f64, String> {
+        match self {
+            Integ::Gauss(Fam::Legendre) => integrate_gaussian(-1.0, 1.0, |x: f64| f(x), tol),
+            Integ::Gauss(Fam::Hermite) => integrate_hermite(|x: f64| f(x), tol),
+            Integ::Gauss(Fam::Laguerre) => integrate_laguerre(|x: f64| f(x), tol),
+            Integ::Gauss(Fam::Cheb1) => integrate_chebyshev(|x: f64| f(x), tol),
+            Integ::Gauss(Fam::Cheb2) => integrate_chebyshev_second(|x: f64| f(x), tol),
+            Integ::TanhSinh => integrate(-1.0, 1.0, |x: f64| f(x), tol),
+        }
+    }
+    fn call_complex(self, f: &mut dyn FnMut(f64) -> Complex<f64>, tol: f64) -> Result<Complex<f64>, String> {
+        match self {
+            Integ::Gauss(Fam::Legendre) => integrate_gaussian(-1.0, 1.0, |x: f64| f(x), tol),
+            Integ::Gauss(Fam::Hermite) => integrate_hermite(|x: f64| f(x), tol),
+            Integ::Gauss(Fam::Laguerre) => integrate_laguerre(|x: f64| f(x), tol),
+            Integ::Gauss(Fam::Cheb1) => integrate_chebyshev(|x: f64| f(x), tol),
+            Integ::Gauss(Fam::Cheb2) => integrate_chebyshev_second(|x: f64| f(x), tol),
+            Integ::TanhSinh => integrate(-1.0, 1.0, |x: f64| f(x), tol),
+        }
+    }
+    /// the abscissae the routine must evaluate if it consumes the audited table completely, one segment
+    /// per rule (tanh-sinh: the centre, then one segment per level), in table order
+    fn expected_segments(self) -> Vec<Vec<f64>> {
+        let mut v = vec![];
+        match self {
+            Integ::Gauss(fam) => {
+                for row in fam.table() {
+                    v.push(expand(fam, row).iter().map(|p| p.0).collect());
+                }
+            }
+            Integ::TanhSinh => {
+                v.push(vec![0.0]);
+                for row in tables::WEIGHTS_DE.iter() {
+                    let mut seg = vec![];
+                    for (_, x) in row.iter() {
+                        seg.push(*x);
+                        seg.push(-*x);
+                    }
+                    v.push(seg);
+                }
+            }
+        }
+        v
+    }
+    fn segment_name(self, s: usize) -> String {
+        match self {
+            Integ::Gauss(_) => format!("row {} (n = {})", s, s + 1),
+            Integ::TanhSinh => {
+                if s == 0 {
+                    "centre".to_string()
+                } else {
+                    format!("level {}", s - 1)
+                }
+            }
+        }
+    }
+}
+
+fn sorted_nodes(v: &[f64]) -> Vec<f64> {
+    let mut w: Vec<f64> = v.iter().map(|x| x + 0.0).collect();
+    w.sort_by(|a, b| a.total_cmp(b));
+    w
+}
+
+/// value in [-1, 1) from the bit pattern of the abscissa: deterministic, never converging
+fn hash_value(x: f64, salt: u64) -> f64 {
+    let mut z = x.to_bits() ^ salt.wrapping_mul(0x9E3779B97F4A7C15);
+    z = (z ^ (z >> 30)).wrapping_mul(0xBF58476D1CE4E5B9);
+    z = (z ^ (z >> 27)).wrapping_mul(0x94D049BB133111EB);
+    z ^= z >> 31;
+    (z >> 11) as f64 / (1u64 << 52) as f64 - 1.0
+}
+
+fn walk_case(rep: &mut Report, integ: Integ, complex: bool) {
+    let name = integ.name();
+    let field = if complex { "complex" } else { "real" };
+    let segments = integ.expected_segments();
+    let expected: Vec<f64> = segments.concat();
+    let log: RefCell<Vec<f64>> = RefCell::new(Vec::with_capacity(expected.len() + 8));
+    probe::begin(4 * expected.len() as u64 + 1000);
+    let outcome = probe::guard(|| {
+        if complex {
+            integ
+                .call_complex(
+                    &mut |x: f64| {
+                        probe::tick_or_panic();
+                        log.borrow_mut().push(x);
+                        Complex::new(hash_value(x, 1), hash_value(x, 2))
+                    },
+                    0.0,
+                )
+                .map(|_| ())
+        } else {
+            integ
+                .call_real(
+                    &mut |x: f64| {
+                        probe::tick_or_panic();
+                        log.borrow_mut().push(x);
+                        hash_value(x, 1)
+                    },
+                    0.0,
+                )
+                .map(|_| ())
+        }
+    });
+    probe::begin(u64::MAX);
+    rep.eval();
+    rep.nontrivial(CaseHash::new("c10-walk").s(name).u(complex as u64).0);
+    let log = log.into_inner();
+    rep.count(&format!("walk/{}/{}/calls", name, field), log.len() as i64);
+    rep.count("walk/runs", 1);
+    let outcome_text = match &outcome {
+        Guarded::Ok(Ok(())) => "Ok".to_string(),
+        Guarded::Ok(Err(e)) => format!("Err({})", e),
+        Guarded::Budget => "evaluation budget exhausted".to_string(),
+        Guarded::Panic(m, l) => format!("panic '{}' at {}", m, l),
+    };
+    let case = || J::obj().set("routine", name).set("field", field).set("integrand", "value = hash of the abscissa's bit pattern in [-1,1): successive rules never agree").set("interval", if matches!(integ, Integ::Gauss(Fam::Legendre) | Integ::TanhSinh) { "[-1, 1]" } else { "weighted" }).set("tol", 0.0).set("outcome", outcome_text.as_str()).set("calls", log.len()).set("expected_calls", expected.len());
+    if let Guarded::Panic(m, l) = &outcome {
+        rep.violation(&format!("walk/{}/panic", name), case(), format!("{} panicked: '{}' at {}", name, m, l));
+        return;
+    }
+    // rule by rule, in table order; inside a rule the order of evaluation is not part of the property
+    if log.len() == expected.len() && log.iter().zip(expected.iter()).all(|(a, b)| a == b) {
+        rep.count("walk/same_order_inside_rules", 1);
+    }
+    let mut bad: Option<(usize, usize)> = None; // (segment, offset of the segment in the log)
+    let mut c = 0usize;
+    for (si, seg) in segments.iter().enumerate() {
+        let got = &log[c.min(log.len())..(c + seg.len()).min(log.len())];
+        if sorted_nodes(got) != sorted_nodes(seg) {
+            bad = Some((si, c));
+            break;
+        }
+        c += seg.len();
+    }
+    let same = bad.is_none() && log.len() == expected.len();
+    if same {
+        rep.count("walk/identical", 1);
+    } else {
+        let (si, off) = bad.unwrap_or((segments.len(), expected.len()));
+        let where_ = if si < segments.len() { integ.segment_name(si) } else { "after the last rule".to_string() };
+        let got: Vec<f64> = log[off.min(log.len())..(off + segments.get(si).map(|s| s.len()).unwrap_or(8)).min(log.len())].to_vec();
+        let audited: Vec<f64> = segments.get(si).cloned().unwrap_or_default();
+        rep.violation(
+            &format!("walk/{}", name),
+            case().set("first_differing_rule", where_.as_str()).set("calls_before_it", off).set("evaluated_there", J::fs(&got)).set("audited_there", J::fs(&audited)),
+            format!("{} ({}) with a never-converging integrand made {} calls ({}); the audited table expands to {} abscissae; first difference in {}: evaluated {:?}, audited rule (x == 0 once, else +-x) {:?}", name, field, log.len(), outcome_text, expected.len(), where_, got, audited),
+        );
+    }
+    if rep.wants_sample() {
+        rep.sample(case().set("identical_to_audited_sequence", same).set("first_abscissae", J::fs(&log[..log.len().min(8)])));
+    }
+}
+
+// ---- consumption: make the integrator return rule k and compare with the audited weights
+
+struct Script {
+    /// value per audited abscissa, one vector per rule (tanh-sinh: centre, then levels), parallel to `expected_segments`
+    values: Vec<Vec<f64>>,
+    /// model value the routine has to return
+    expect: f64,
+    /// sum |w v| of the returned rule
+    magnitude: f64,
+    tol: f64,
+    attempts: u32,
+}
+
+/// Gaussian rule sequence: return rule k (1-based, k >= 2)
+fn script_gauss(integ: Integ, fam: Fam, k: usize, case_idx: u64) -> Option<Script> {
+    let tol = 1e-3;
+    let it = integ.inner_tol(tol);
+    let rows: Vec<Vec<(f64, f64)>> = fam.table().iter().take(k).map(|r| expand(fam, r)).collect();
+    if rows.len() < k || rows.iter().any(|r| r.is_empty()) {
+        return None;
+    }
+    for attempt in 0..50u32 {
+        let mut rng = Rng::for_case(0xC10, "c10-consume", case_idx * 64 + attempt as u64);
+        let mut values: Vec<Vec<f64>> = rows.iter().map(|r| r.iter().map(|_| rng.r(-1.0, 1.0)).collect()).collect();
+        let area = |r: usize, values: &Vec<Vec<f64>>| -> f64 { rows[r].iter().zip(&values[r]).map(|((_, w), v)| w * v).sum() };
+        let steer = |r: usize, target: f64, values: &mut Vec<Vec<f64>>| {
+            // adjust the value at the largest weight of the row
+            let (q, _) = rows[r].iter().enumerate().fold((0usize, 0.0f64), |acc, (q, (_, w))| if *w > acc.1 { (q, *w) } else { acc });
+            let cur = area(r, values);
+            values[r][q] += (target - cur) / rows[r][q].1;
+        };
+        // rows 1..k-2 random; rows k-1 and k agree with row k-2 (or with 0 for k = 2) within the tolerance
+        let basis = if k >= 3 { area(k - 3, &values) } else { 0.0 };
+        steer(k - 2, basis + 0.3 * it, &mut values);
+        steer(k - 1, basis + 0.5 * it, &mut values);
+        // the model must not stop early: all earlier differences clearly above the tolerance
+        let mut prev = 0.0;
+        let mut ok = true;
+        for r in 0..k.saturating_sub(2) {
+            let a = area(r, &values);
+            if !((a - prev).abs() >= 2.0 * it) {
+                ok = false;
+            }
+            prev = a;
+        }
+        if !ok {
+            continue;
+        }
+        let expect = area(k - 1, &values);
+        let magnitude: f64 = rows[k - 1].iter().zip(&values[k - 1]).map(|((_, w), v)| (w * v).abs()).sum();
+        return Some(Script { values, expect, magnitude, tol, attempts: attempt + 1 });
+    }
+    None
+}
+
+/// tanh-sinh: return the level-L trapezoid sum (L >= 2)
+fn script_de(level: usize, case_idx: u64) -> Option<Script> {
+    let tol = 1e-3;
+    if tables::WEIGHTS_DE.len() <= level {
+        return None;
+    }
+    for attempt in 0..50u32 {
+        let mut rng = Rng::for_case(0xC10, "c10-consume-de", case_idx * 64 + attempt as u64);
+        let v0 = rng.r(-1.0, 1.0);
+        let mut values: Vec<Vec<f64>> = (0..=level).map(|l| (0..2 * tables::WEIGHTS_DE[l].len()).map(|_| rng.r(-1.0, 1.0)).collect()).collect();
+        let contrib = |l: usize, values: &Vec<Vec<f64>>| -> f64 { tables::WEIGHTS_DE[l].iter().enumerate().map(|(j, (w, _))| w * (values[l][2 * j] + values[l][2 * j + 1])).sum() };
+        // I_l = I_{l-1}/2 + C_l, I_{-1} = pi f(0): the trapezoid sum of step 2^-l
+        let mut integral = PI * v0;
+        let mut ok = true;
+        let mut magnitude = (PI * v0).abs();
+        for l in 0..=level {
+            if l == level {
+                // steer the first (largest) weight of the level: C_L = I_{L-1}/2 + 0.3 tol
+                let c = contrib(l, &values);
+                values[l][0] += (0.5 * integral + 0.3 * tol - c) / tables::WEIGHTS_DE[l][0].0;
+            }
+            let c = contrib(l, &values);
+            let delta = (0.5 * integral - c).abs();
+            if l >= 2 && l < level && !(delta >= 0.1) {
+                ok = false;
+            }
+            integral = 0.5 * integral + c;
+            magnitude = 0.5 * magnitude + tables::WEIGHTS_DE[l].iter().enumerate().map(|(j, (w, _))| (w * values[l][2 * j]).abs() + (w * values[l][2 * j + 1]).abs()).sum::<f64>();
+        }
+        if !ok {
+            continue;
+        }
+        let mut all = vec![vec![v0]];
+        all.extend(values);
+        return Some(Script { values: all, expect: integral, magnitude, tol, attempts: attempt + 1 });
+    }
+    None
+}
+
+fn consume_case(rep: &mut Report, integ: Integ, k: usize, case_idx: u64) {
+    let name = integ.name();
+    let script = match integ {
+        Integ::Gauss(fam) => script_gauss(integ, fam, k, case_idx),
+        Integ::TanhSinh => script_de(k, case_idx),
+    };
+    let what = if integ == Integ::TanhSinh { format!("level {}", k) } else { format!("rule n = {}", k) };
+    let script = match script {
+        Some(s) => s,
+        None => {
+            rep.inconclusive("no-script-found");
+            return;
+        }
+    };
+    let segments = integ.expected_segments();
+    let n_script: usize = script.values.iter().map(|v| v.len()).sum();
+    let log: RefCell<Vec<f64>> = RefCell::new(vec![]);
+    let strayed = std::cell::Cell::new(false);
+    probe::begin(4 * n_script as u64 + 1000);
+    let outcome = probe::guard(|| {
+        integ.call_real(
+            &mut |x: f64| {
+                probe::tick_or_panic();
+                let c = log.borrow().len();
+                log.borrow_mut().push(x);
+                // which rule this call belongs to follows from the number of calls so far; the value from the
+                // abscissa inside that rule (any order of evaluation inside a rule is fine)
+                let mut off = 0usize;
+                for (si, vals) in script.values.iter().enumerate() {
+                    if c < off + vals.len() {
+                        return match segments[si].iter().position(|a| *a == x) {
+                            Some(q) => vals[q],
+                            None => {
+                                strayed.set(true);
+                                0.0
+                            }
+                        };
+                    }
+                    off += vals.len();
+                }
+                // calls beyond the script: the routine did not stop where the audited table says it must
+                0.0
+            },
+            script.tol,
+        )
+    });
+    probe::begin(u64::MAX);
+    rep.eval();
+    rep.count(&format!("consume/{}/cases", name), 1);
+    rep.count("consume/cases", 1);
+    rep.count("consume/script_attempts", script.attempts as i64);
+    rep.nontrivial(CaseHash::new("c10-consume").s(name).u(k as u64).0);
+    let log = log.into_inner();
+    let case = |got: &str| {
+        let script_json: Vec<J> = script.values.iter().enumerate().map(|(si, vals)| J::obj().set("rule", integ.segment_name(si)).set("abscissae", J::fs(&segments[si])).set("values", J::fs(vals))).collect();
+        J::obj()
+            .set("routine", name)
+            .set("interval", if matches!(integ, Integ::Gauss(Fam::Legendre) | Integ::TanhSinh) { "[-1, 1]" } else { "weighted" })
+            .set("tol", script.tol)
+            .set("integrand", "stateful: the rule a call belongs to follows from the number of calls so far (rule sizes as audited); inside a rule the value is looked up by abscissa; 0 beyond the script")
+            .set("script", J::Arr(script_json))
+            .set("scripted_to_return", what.as_str())
+            .set("audited_sum_w_v", script.expect)
+            .set("sum_abs_w_v", script.magnitude)
+            .set("returned", got)
+            .set("calls", log.len())
+            .set("scripted_calls", n_script)
+    };
+    // the abscissae must be the audited ones (otherwise the script's bookkeeping is void: the walk reports that)
+    if strayed.get() {
+        rep.inconclusive("consumption-run-left-the-audited-abscissae(walk reports)");
+        return;
+    }
+    match outcome {
+        Guarded::Panic(m, l) => rep.violation(&format!("consume/{}/panic", name), case("panic"), format!("{} panicked: '{}' at {}", name, m, l)),
+        Guarded::Budget => rep.violation(&format!("consume/{}", name), case("budget exhausted"), format!("{}: scripted run did not stop", name)),
+        Guarded::Ok(Err(e)) => rep.violation(
+            &format!("consume/{}", name),
+            case(&format!("Err({})", e)),
+            format!("{}: with the audited weights {} agrees with its predecessor(s) within tol and must be returned, value {:.17e}; the routine made {} calls (script: {}) and returned Err({})", name, what, script.expect, log.len(), n_script, e),
+        ),
+        Guarded::Ok(Ok(v)) => {
+            let err = (v - script.expect).abs();
+            let unit = EPS * script.magnitude;
+            rep.max(&format!("consume/{}/ratio", name), err / unit);
+            if !(err <= K_CONSUME * unit) || log.len() != n_script {
+                rep.violation(
+                    &format!("consume/{}", name),
+                    case(&format!("Ok({:e})", v)),
+                    format!("{}: {} applied to the scripted values must give {:.17e} with the audited weights; the routine returned {:.17e} after {} calls (script: {}); difference {:.3e} = {:.1} x eps*sum|w v| (allowed {})", name, what, script.expect, v, log.len(), n_script, err, err / unit, K_CONSUME),
+                );
+            }
+            if rep.wants_sample() && k == 4 {
+                rep.sample(case(&format!("Ok({:e})", v)).set("difference", err));
+            }
+        }
+    }
+}
+
+// =========================================================================== stages
+
 pub fn stages(_ctx: &Ctx) -> Vec<Stage> {
-    vec![]
+    let mut st = vec![];
+    // every row of the five Gaussian tables
+    let offsets: Vec<(Fam, u64)> = FAMS.iter().map(|f| (*f, f.table().len() as u64)).collect();
+    let total: u64 = offsets.iter().map(|o| o.1).sum();
+    let off = offsets.clone();
+    st.push(Stage::new("audit-gauss", total, move |i, rep| {
+        let mut r = i;
+        for (fam, n) in &off {
+            if r < *n {
+                audit_row(rep, *fam, r as usize);
+                return;
+            }
+            r -= *n;
+        }
+    }));
+    st.push(Stage::new("audit-tanh-sinh", tables::WEIGHTS_DE.len() as u64, move |i, rep| audit_de_level(rep, i as usize)));
+    st.push(Stage::new("walk", 12, move |i, rep| walk_case(rep, INTEGS[(i % 6) as usize], i >= 6)));
+    // consumption: rules k = 2..rows of every Gaussian table, tanh-sinh levels 2..
+    let mut cases: Vec<(Integ, usize)> = vec![];
+    for fam in FAMS {
+        for k in 2..=fam.table().len() {
+            cases.push((Integ::Gauss(fam), k));
+        }
+    }
+    for l in 2..tables::WEIGHTS_DE.len() {
+        cases.push((Integ::TanhSinh, l));
+    }
+    let n_cases = cases.len() as u64;
+    st.push(Stage::new("consume", n_cases, move |i, rep| {
+        let (integ, k) = cases[i as usize];
+        consume_case(rep, integ, k, i);
+    }));
+    st
 }
-pub fn thresholds(_ctx: &Ctx, _rep: &Report) -> Vec<Threshold> {
-    vec![Threshold { what: "check not built".into(), required: 1.0, observed: 0.0 }]
+
+pub fn thresholds(_ctx: &Ctx, rep: &Report) -> Vec<Threshold> {
+    let mut t = vec![];
+    let mut consume_expected = 0.0;
+    for fam in FAMS {
+        t.push(Threshold { what: format!("{} rows audited", fam.table_name()), required: fam.rows_expected() as f64, observed: rep.counter(&format!("{}/rows", fam.name())) as f64 });
+        t.push(Threshold { what: format!("{} rows audited completely (structure intact, orthonormality and moments evaluated)", fam.table_name()), required: fam.rows_expected() as f64, observed: rep.counter(&format!("{}/rows_fully_audited", fam.name())) as f64 });
+        let stored: usize = (1..=fam.rows_expected()).map(|n| if fam.symmetric() { (n + 1) / 2 } else { n }).sum();
+        t.push(Threshold { what: format!("{} stored entries audited", fam.table_name()), required: stored as f64, observed: rep.counter(&format!("{}/entries_audited", fam.name())) as f64 });
+        consume_expected += (fam.rows_expected() - 1) as f64;
+    }
+    t.push(Threshold { what: "WEIGHTS_DE levels audited".into(), required: 7.0, observed: rep.counter("tanh_sinh/levels") as f64 });
+    t.push(Threshold { what: "WEIGHTS_DE (weight, abscissa) pairs audited".into(), required: 192.0, observed: rep.counter("tanh_sinh/entries_audited") as f64 });
+    t.push(Threshold { what: "integrator walks compared with the audited tables".into(), required: 12.0, observed: rep.counter("walk/runs") as f64 });
+    t.push(Threshold { what: "scripted consumption runs (one per rule k >= 2 / level >= 2)".into(), required: consume_expected + 5.0, observed: rep.counter("consume/cases") as f64 });
+    t
 }
